@@ -209,7 +209,7 @@ pub fn run(ctx: &Ctx) {
     ctx.space("all 65536 flag words x {no OPT, OPT with ext-rcode 0, OPT with ext-rcode 0x12}", 65536 * 3, "complete");
     // (iii) reference-encoded packet spaces (incl. empty RDATA, unknown types), OPT at every index
     let mut space = gen::packet_space(1, false, 2);
-    let mut extra = Vec::new();
+    let mut extra: Vec<RefPacket> = Vec::new();
     for sch in SCHEMAS {
         for cls in CLASSES {
             let mut p = RefPacket { id: 1, flags: F_QR, ..Default::default() };
@@ -218,6 +218,23 @@ pub fn run(ctx: &Ctx) {
             p.additional.push(rr("z.example", null_rdata(65280, &[9, 9])));
             p.opt = Some(gen::opt_family()[2].clone());
             extra.push(p);
+        }
+    }
+    // two OPT records in the additional section (the second one is an ordinary record for the parser)
+    for (i, a) in gen::opt_family().iter().enumerate() {
+        for (j, b) in gen::opt_family().iter().enumerate() {
+            for n_other in 0..3usize {
+                let mut p = RefPacket { id: 2, flags: F_QR, rcode: if i % 2 == 0 { 16 } else { 3 }, opt: Some(a.clone()), ..Default::default() };
+                for k in 0..n_other {
+                    p.additional.push(rr(if k == 0 { "x.example" } else { "y.example" }, typed(1, vec![schema::Val::U32(k as u32)])));
+                }
+                let stray = RefRR { name: RefName::root(), class: 1, cache_flush: false, ttl: ((j as u32) << 24) | 0x0001_0000, rdata: RefRData::StrayOpt(b.clone()) };
+                for pos in 0..=n_other {
+                    let mut q = p.clone();
+                    q.additional.insert(pos, stray.clone());
+                    extra.push(q);
+                }
+            }
         }
     }
     space.extend(extra);
